@@ -2,7 +2,9 @@
 """store_seeded.py ID k NAME caught|missed RULE "note": keep a confirmed adversarial change under /verif/seeded/ID/NAME/ (patch.diff, demo/, meta.json)."""
 import sys, os, json, shutil, stat
 ID, k, name, caught, rule, note = sys.argv[1:7]
-src = '/tmp/adv/%s/out/%s' % (ID, k)
+ROOT = os.environ.get('ADV_ROOT', '/tmp/adv')
+ROUND = os.environ.get('ADV_ROUND', '1')
+src = '%s/%s/out/%s' % (ROOT, ID, k)
 dst = '/verif/seeded/%s/%s' % (ID, name)
 os.makedirs(dst + '/demo', exist_ok=True)
 shutil.copy(src + '/patch.diff', dst + '/patch.diff')
@@ -13,12 +15,12 @@ for fn in sorted(os.listdir(src + '/demo')):
         shutil.copy(p, dst + '/demo/' + fn)
 m = json.load(open(src + '/meta.json'))
 c = json.load(open(src + '/confirm.json')) if os.path.exists(src + '/confirm.json') else {}
-m['origin'] = 'independent sub-agent given only the property text and a scratch worktree (adversarial round 1)'
+m['origin'] = 'independent sub-agent given only the property text and a scratch worktree (adversarial round %s)' % ROUND
 m['confirmed'] = {k2: c.get(k2) for k2 in ('applies', 'builds', 'tests', 'tests_pass', 'tests_pass_after_rerun', 'demo_changed_rc', 'demo_unchanged_rc', 'confirmed') if k2 in c}
 m['caught_by_check'] = (caught == 'caught')
 m['caught_by_rule'] = rule if caught == 'caught' else None
 m['disposition'] = note
 if 'demo_cmd' in m:
-    m['demo_cmd'] = m['demo_cmd'].replace('/tmp/adv/%s/out/%s' % (ID, k), '<this directory>').replace('/tmp/adv/%s' % ID, '<worktree of /repo with patch.diff applied and built>')
+    m['demo_cmd'] = m['demo_cmd'].replace('%s/%s/out/%s' % (ROOT, ID, k), '<this directory>').replace('%s/%s' % (ROOT, ID), '<worktree of /repo with patch.diff applied and built>')
 json.dump(m, open(dst + '/meta.json', 'w'), indent=1)
 print('stored', dst, 'caught' if m['caught_by_check'] else 'missed')
